@@ -35,6 +35,14 @@ def run(chk, replay=None):
     ]):
         p = Prog("fn main() { %s }" % cond, list(wt.items()), "env/%d" % i)
         env_progs.append(p)
+    # the recorded inputs of the two known findings (dependency defects D10, D13) are probed on every run
+    k10 = Prog("fn main() { let w0: Either<Either<bool, Option<u4>>, bool> = witness::W0; match w0 { Left(v1: Either<bool, Option<u4>>) => { match v1 { Left(v3: bool) => { assert!(jet::eq_1(<bool>::into(v3), 1)); }, Right(v4: Option<u4>) => (), }; }, Right(v2: bool) => (), }; }",
+               [("W0", ("E", ("E", ("B",), ("O", ("U", 2))), ("B",)))], "known/D10")
+    k10.extra_assign = [[("W0", ("l", ("r", ("B",), ("s", ("u", 2, 9))), ("B",)))]]
+    k13 = Prog("fn g1(el: u1, acc: u1) -> u1 { 1 }\nfn main() { let a: u1 = fold::<g1, 4>(list![1, 1], 0); let c: u1 = fold::<g1, 8>(witness::W2, 0); assert!(jet::eq_1(c, 1)); }",
+               [("W2", ("L", ("U", 0), 3))], "known/D13")
+    k13.extra_assign = [[("W2", ("li", ("U", 0), 3, (("u", 0, 0),)))]]
+    gprogs = [k10, k13] + gprogs
     acc = corelib.check_terms(chk, gprogs + env_progs, dbgs=(0,))
     jobs = []
     for g in acc:
@@ -62,7 +70,10 @@ def run(chk, replay=None):
             continue
         # satisfy_with_env(Some(env)) returns Err exactly when the unpruned program fails under env
         if cu == "ok":
-            if cp != "ok" and corelib.classify_impl(fixed(ln)) == "ok":
+            if cp != "ok" and "twins=yes" in y and "mexec=ok" in y:
+                chk.violation({"class": "upstream-ihr-twins", "what": g.text[:300]},
+                              dict(base, expected="ok", broken="the pruned program succeeds in memory but contains two different nodes with one identity hash (assertl / assertr twins made by the library's pruner); its encoding merges them (D13)"))
+            elif cp != "ok" and corelib.classify_impl(fixed(ln)) == "ok":
                 chk.violation({"class": "upstream-value-prune", "what": g.text[:300]},
                               dict(base, expected="ok", with_corrected_dependency="ok", broken="satisfy_with_env(Some(env)) fails only because of simplicity-lang 0.4.0 Value::prune (D10)"))
             elif cp != "ok":
